@@ -417,21 +417,34 @@ const REWRITERS: &[(&str, &str, &str)] = &[
   ("numc", "{kind: number}", "{template: M, expandEnd: {regex: ','}}"),
   ("arr", "{kind: array}", "'[]'"),
   ("wrapf", "{pattern: f($X)}", "'wrap($X)'"),
+  ("cnum", "{kind: number}", "{template: K, expandStart: {regex: ','}}"),
 ];
 
 /// the documented meaning of each rewriter's fix, for the reference of oracle `c06_rewriter`:
-/// (template, meta variable substituted verbatim, swallows a directly following comma)
-fn rewriter_doc(id: &str) -> (&'static str, Option<&'static str>, bool) {
+/// (template, meta variable substituted verbatim, swallows a directly following comma,
+/// swallows a directly preceding comma)
+fn rewriter_doc(id: &str) -> (&'static str, Option<&'static str>, bool, bool) {
   match id {
-    "num" => ("N", None, false),
-    "ident" => ("<$I>", Some("I"), false),
-    "call" => ("G[$X]", Some("X"), false),
-    "str" => ("STR", None, false),
-    "numc" => ("M", None, true),
-    "arr" => ("[]", None, false),
-    "wrapf" => ("wrap($X)", Some("X"), false),
+    "num" => ("N", None, false, false),
+    "ident" => ("<$I>", Some("I"), false, false),
+    "call" => ("G[$X]", Some("X"), false, false),
+    "str" => ("STR", None, false, false),
+    "numc" => ("M", None, true, false),
+    "arr" => ("[]", None, false, false),
+    "wrapf" => ("wrap($X)", Some("X"), false, false),
+    "cnum" => ("K", None, false, true),
     _ => unreachable!(),
   }
+}
+
+/// what the `rewrite` transformation is applied to: all arguments (`$$$ARGS`), or a single
+/// argument that has a sibling comma outside the captured text -- after it (`First`) or before
+/// it (`Second`) -- so that a rewriter's `expandEnd` / `expandStart` leaves the captured text
+#[derive(Clone, Copy, PartialEq)]
+enum Capture {
+  All,
+  First,
+  Second,
 }
 
 fn rewriter_config(id: &str) -> RuleConfig<SupportLang> {
@@ -460,6 +473,7 @@ fn gen_js_args(rng: &mut Rng) -> String {
 pub fn rewrite_splice(ctx: &Ctx, rng: &mut Rng, o: &mut Out) {
   // 1. the private make_edit through the hook
   let n = if ctx.thorough { 40_000 } else { 3_000 };
+  let mut outside_cases = 0usize;
   for _ in 0..n {
     let old = gen_text(rng, 10);
     let offset = rng.below(20);
@@ -468,34 +482,77 @@ pub fn rewrite_splice(ctx: &Ctx, rng: &mut Rng, o: &mut Out) {
       .iter()
       .map(|(r, s)| (offset + r.start, r.end.saturating_sub(r.start), s.as_bytes().to_vec()))
       .collect();
+    // edits that leave the captured text (a fix with expandStart / expandEnd, a rewriter made of a
+    // bare relation).  The released code panicked on each of them; the repaired code clamps the
+    // edit to the captured text.
     if rng.chance(1, 12) && !edits.is_empty() && offset > 0 {
-      // an edit before the start of the capture: `position - offset` underflows
+      // an edit before the start of the capture: `position - offset` would underflow
+      // (its deleted length is kept: it may end before the capture or reach into it)
       let i = rng.below(edits.len());
       edits[i].0 = rng.below(offset);
     }
+    if rng.chance(1, 12) && !edits.is_empty() {
+      // an edit whose deleted length reaches beyond the end of the capture
+      let i = rng.below(edits.len());
+      let rel = edits[i].0.saturating_sub(offset);
+      edits[i].1 = old.len().saturating_sub(rel) + 1 + rng.below(4);
+    }
+    if rng.chance(1, 12) && !edits.is_empty() {
+      // an edit positioned at or beyond the end of the capture (deleted length kept)
+      let i = rng.below(edits.len());
+      edits[i].0 = offset + old.len() + rng.below(4);
+    }
+    let outside = edits.iter().any(|(p, d, _)| *p < offset || p + d > offset + old.len());
     let r = impl_rw_make_edit(old.as_bytes(), &edits, offset);
+    // the point of the repair, independent of the model: no input makes the splice panic
+    if outside {
+      outside_cases += 1;
+    }
+    if r == json!("panic") {
+      o.oracle(
+        "c06_rw_make_edit_total",
+        false,
+        json!({"fp": format!("make_edit panics class={class} outside={outside}"),
+               "old": old.as_bytes(), "edits": redits_json(&edits), "offset": offset}),
+      );
+    }
     o.op(
       "rw_make_edit",
       json!({"old": old.as_bytes(), "edits": redits_json(&edits), "offset": offset, "class": class}),
       r,
     );
   }
+  o.oracle("c06_rw_make_edit_total", true, json!({"cases": outside_cases}));
   // 2. Rewrite::compute end to end, with and without joinBy
   let m = if ctx.thorough { 6_000 } else { 500 };
   let globals = GlobalRules::default();
   let mut cases = 0usize;
-  // small fixed cases first (nested / recursive rewriter matches with gap text between the items),
-  // then generated ones
-  let fixed: Vec<(Vec<&str>, Option<&str>, &str)> = vec![
-    (vec!["wrapf"], Some(" + "), "f(f(1),\n    f(f(2)))"),
-    (vec!["wrapf"], None, "f(f(1),\n    f(f(2)))"),
-    (vec!["call"], Some(","), "f(a,      g(g(3)))"),
-    (vec!["call", "num"], Some(""), "f(1 ,\n  2 ,\n  g(g(g(3))), 4)"),
-    (vec!["numc", "arr"], Some("|"), "f([1, 2], 3, 4)"),
+  let mut leaving = 0usize;
+  // small fixed cases first (nested / recursive rewriter matches with gap text between the items;
+  // a single captured argument whose rewriter's expansion leaves the captured text: the edit
+  // reaches beyond its end / starts before it), then generated ones
+  use Capture::*;
+  let fixed: Vec<(Vec<&str>, Option<&str>, &str, Capture)> = vec![
+    (vec!["wrapf"], Some(" + "), "f(f(1),\n    f(f(2)))", All),
+    (vec!["wrapf"], None, "f(f(1),\n    f(f(2)))", All),
+    (vec!["call"], Some(","), "f(a,      g(g(3)))", All),
+    (vec!["call", "num"], Some(""), "f(1 ,\n  2 ,\n  g(g(g(3))), 4)", All),
+    (vec!["numc", "arr"], Some("|"), "f([1, 2], 3, 4)", All),
+    (vec!["numc"], None, "f(1, 2)", First),
+    (vec!["numc"], Some("+"), "f(1, 2)", First),
+    (vec!["numc", "ident"], None, "f(22 ,\n  a, 3)", First),
+    (vec!["numc"], None, "f(g(1, 2), 3)", First),
+    (vec!["call", "numc"], None, "f(g(4), 5)", First),
+    (vec!["cnum"], None, "f(a, 2)", Second),
+    (vec!["cnum"], Some("+"), "f(a, 2)", Second),
+    (vec!["cnum"], None, "f(é ,\n  22)", Second),
+    (vec!["cnum"], None, "f(a, g(1, 2))", Second),
+    (vec!["cnum", "numc"], Some(" | "), "f(1, h(4, 5))", Second),
+    (vec!["cnum"], None, "f(a, 2, 3)", All),
   ];
   for k in 0..m + fixed.len() {
-    let (ids, joiner, fixed_src): (Vec<&str>, Option<&str>, Option<&str>) = if k < fixed.len() {
-      (fixed[k].0.clone(), fixed[k].1, Some(fixed[k].2))
+    let (ids, joiner, fixed_src, capture): (Vec<&str>, Option<&str>, Option<&str>, Capture) = if k < fixed.len() {
+      (fixed[k].0.clone(), fixed[k].1, Some(fixed[k].2), fixed[k].3)
     } else {
       // choose an ordered subset of rewriters
       let mut ids: Vec<&str> = REWRITERS.iter().map(|r| r.0).filter(|_| rng.chance(1, 2)).collect();
@@ -506,14 +563,19 @@ pub fn rewrite_splice(ctx: &Ctx, rng: &mut Rng, o: &mut Out) {
         ids.reverse();
       }
       let joiner = if rng.chance(1, 2) { Some(*rng.pick(&["+", "", " | ", "é", " + "])) } else { None };
-      (ids, joiner, None)
+      (ids, joiner, None, All)
     };
-    let mut yaml = String::from("id: t\nlanguage: JavaScript\nrule: {pattern: 'f($$$ARGS)'}\nrewriters:\n");
+    let (pattern, source) = match capture {
+      All => ("f($$$ARGS)", "$$$ARGS"),
+      First => ("f($ARGS, $$$R)", "$ARGS"),
+      Second => ("f($A, $ARGS)", "$ARGS"),
+    };
+    let mut yaml = format!("id: t\nlanguage: JavaScript\nrule: {{pattern: '{pattern}'}}\nrewriters:\n");
     for id in &ids {
       let (_, rule, fix) = REWRITERS.iter().find(|r| r.0 == *id).unwrap();
       yaml.push_str(&format!("- id: {id}\n  rule: {rule}\n  fix: {fix}\n"));
     }
-    yaml.push_str(&format!("transform:\n  NEW:\n    rewrite:\n      rewriters: [{}]\n      source: $$$ARGS\n", ids.join(", ")));
+    yaml.push_str(&format!("transform:\n  NEW:\n    rewrite:\n      rewriters: [{}]\n      source: {source}\n", ids.join(", ")));
     if let Some(j) = joiner {
       yaml.push_str(&format!("      joinBy: '{j}'\n"));
     }
@@ -525,9 +587,15 @@ pub fn rewrite_splice(ctx: &Ctx, rng: &mut Rng, o: &mut Out) {
     };
     let grep = SupportLang::JavaScript.ast_grep(&src);
     let root = grep.root();
-    let Some(nm) = root.find(&rule.matcher) else { continue };
+    let Some(nm) = root.find(&rule.matcher) else {
+      assert!(fixed_src.is_none(), "fixed case {k} does not match");
+      continue;
+    };
     let env = nm.get_env();
-    let nodes = env.get_multiple_matches("ARGS");
+    let nodes = match capture {
+      All => env.get_multiple_matches("ARGS"),
+      _ => env.get_match("ARGS").cloned().into_iter().collect(),
+    };
     let real = guard(|| match env.get_transformed("NEW") {
       Some(b) => json!(String::from_utf8_lossy(b).to_string()),
       None => Value::Null,
@@ -569,16 +637,24 @@ pub fn rewrite_splice(ctx: &Ctx, rng: &mut Rng, o: &mut Out) {
       let raw = env.get_transformed("NEW").cloned().unwrap_or_default();
       let captured = std::str::from_utf8(&bytes).expect("capture is utf8");
       let mut proposals: Vec<RawDiff> = vec![];
+      let mut leaves = false;
       for n in &nodes {
         for child in n.dfs() {
           for (id, rw) in ids.iter().zip(rws.iter()) {
             let Some(m) = rw.matcher.match_node(child.clone()) else { continue };
-            let (tpl, var, comma) = rewriter_doc(id);
+            let (tpl, var, comma, comma_before) = rewriter_doc(id);
             let mut r = child.range();
             if comma {
               if let Some(nx) = child.next() {
                 if nx.text().contains(',') {
                   r.end = nx.range().end;
+                }
+              }
+            }
+            if comma_before {
+              if let Some(pv) = child.prev() {
+                if pv.text().contains(',') {
+                  r.start = pv.range().start;
                 }
               }
             }
@@ -589,7 +665,14 @@ pub fn rewrite_splice(ctx: &Ctx, rng: &mut Rng, o: &mut Out) {
               }
               None => tpl.to_string(),
             };
-            proposals.push(((r.start - start)..(r.end - start), rep));
+            // a proposal may leave the captured text (the comma before / after a single
+            // captured argument): only the part inside the captured text can be replaced
+            if r.start < start || r.end > end {
+              leaves = true;
+            }
+            let a = r.start.saturating_sub(start).min(captured.len());
+            let b = r.end.saturating_sub(start).min(captured.len()).max(a);
+            proposals.push((a..b, rep));
             break;
           }
         }
@@ -603,17 +686,20 @@ pub fn rewrite_splice(ctx: &Ctx, rng: &mut Rng, o: &mut Out) {
         }
       }
       kept.sort_by_key(|d| (d.0.start, d.0.end));
-      let in_capture = kept.iter().all(|d| d.0.end <= captured.len());
-      let expect: Option<String> = match joiner {
-        Some(j) => Some(kept.iter().map(|d| d.1.as_str()).collect::<Vec<_>>().join(j)),
-        None if in_capture => Some(reference_splice(captured, &kept)),
-        None => None, // a kept range leaves the capture: the code panics (covered by op rw_make_edit)
+      if leaves {
+        leaving += 1;
+      }
+      // a kept range that leaves the capture was cut to the captured text above: the repaired code
+      // replaces the part inside it and keeps every other byte of the capture (the released code
+      // panicked; the clamping on arbitrary edit lists is covered by op rw_make_edit)
+      let expect: String = match joiner {
+        Some(j) => kept.iter().map(|d| d.1.as_str()).collect::<Vec<_>>().join(j),
+        None => reference_splice(captured, &kept),
       };
       let got = std::str::from_utf8(&raw).ok();
-      let ok = match (&expect, got) {
-        (_, None) => false,
-        (Some(e), Some(g)) => e == g && (joiner.is_some() || outside_preserved(captured, &kept, g)),
-        (None, Some(_)) => true,
+      let ok = match got {
+        None => false,
+        Some(g) => expect == g && (joiner.is_some() || outside_preserved(captured, &kept, g)),
       };
       if !ok {
         o.oracle(
@@ -628,6 +714,8 @@ pub fn rewrite_splice(ctx: &Ctx, rng: &mut Rng, o: &mut Out) {
     }
   }
   o.oracle("c06_rewriter", true, json!({"cases": cases}));
+  // cases in which a rewriter's edit leaves the captured text (clamped by the repaired code)
+  o.oracle("c06_rewriter_clamped", true, json!({"cases": leaving}));
 }
 
 // ---------------------------------------------------------------------------------------
